@@ -113,7 +113,14 @@ def work(item):
     gs = getters(name, m)
     values, st = e2.valid_set(name, m, tier, nseeds=8 if quick else 40, cap=400 if quick else 5000,
                               depth=1 if quick else 2)
-    from .. import seeds as seedmod
+    from .. import seeds as seedmod, synth
+    sv0 = seedmod.seeds(name, 4)
+    extra = synth.date_numbers(name, m, sv0)
+    reg = [x for x in synth.registry_inputs(name, m, sv0, limit=300 if quick else 4000,
+                                            funcs=tuple(['validate'] + gs)) if e2._accepts(m, x, {})]
+    values = sorted(set(values) | set(extra) | set(reg[:1500 if quick else 100000]))
+    res['extra']['synth_date_numbers'] = {name: len(extra)} if extra else {}
+    res['extra']['synth_registry_numbers'] = {name: len(reg)} if reg else {}
     pres = [(s, v) for s, v in seedmod.seeds(name, 20 if quick else None) if s != v]
     n = ok = 0
     for fn in gs:
